@@ -137,6 +137,7 @@ class FoldMixin:
             return NotImplemented
         # ---- one arbitrary iteration on an abstract accumulator
         b = st.fork()
+        n_before = self.n
         i = self.fresh("k", IS)
         self.assume(b, z3.And(i >= 0, i < n))
         b.pc = zand(b.pc, z3.And(i >= 0, i < n))
@@ -185,9 +186,19 @@ class FoldMixin:
             return st
         w = len(elems)
         from .quant_util import const_names
+        iname = i.decl().name()
         for e in elems:
-            if any(nm.startswith("acc@") for nm in const_names(e)):
-                raise Unsupported("loop %d: appended element depends on the accumulator" % s.get("loop", 0))
+            for nm in const_names(e):
+                if nm.startswith("acc@"):
+                    raise Unsupported("loop %d: appended element depends on the accumulator" % s.get("loop", 0))
+                if "!" in nm and nm != iname:
+                    try:
+                        serial = int(nm.rsplit("!", 1)[1])
+                    except ValueError:
+                        continue
+                    if serial > n_before + 1:
+                        # a value invented during this iteration (unknown call result ...) cannot be generalised over k
+                        raise Unsupported("loop %d: appended element depends on a per-iteration unknown (%s)" % (s.get("loop", 0), nm))
         self.summarised.add("%s loop %d: append-fold summary, %d element(s) per iteration" % (
             self.prog.short(self.cur_func.full), s.get("loop", 0), w))
         if w == 0:
